@@ -30,7 +30,7 @@ let c08_selftest (line : string) : string =
   match String.split_on_char ' ' line with
   | [_src; ast] ->
     let d = Lib_ast.document_of_string ast in
-    let wf = wfd d in
+    let wf = pwfd d in
     let bad = List.filter_map (fun cfg ->
       let toks = ptokens cfg d in
       match ast_print cfg d with
